@@ -13,7 +13,7 @@ func init() {
 	register(&propDef{
 		id: "C35", title: "Relocation handoff masking respects caller deadlines",
 		technique: "effect analysis on the call graph (no sleeping primitive reachable from the asynchronous send path), clamp rule on the only sleep of the synchronous path (duration ≤ time left to a deadline that is itself capped by the caller's), guard dominance for the give-up edges",
-		explanation: "Decides: (1) asynchronous name-based sends never wait: no function synchronously reachable from PID.SendAsync / ReceiveContext.SendAsync within the actor package calls a sleeping primitive (time.Sleep, pause.For, time.After, timer creation, the handoff sleep) and SendAsync goes through deliverBypassingHandoff, which fails fast with ErrRelocationInProgress; (2) the synchronous path (SendSync → deliverAcrossHandoff) sleeps only in sleepWithinHandoff; that function returns false without sleeping when the deadline has passed, never sleeps longer than the time left to the deadline, and also wakes on context cancellation; every deadline handed to it is derived from min(handoff window, caller maxWait) or from the not-found masking window capped by the caller's deadline; (3) the final delivery runs under a context bounded by the caller's deadline when one was given; (4) when waiting is no longer allowed the function returns the retryable error (ErrRelocationInProgress or the retryable lookup error), not a success and not a bare timeout.",
+		explanation: "Decides: (1) asynchronous name-based sends never wait: no function synchronously reachable from PID.SendAsync / ReceiveContext.SendAsync within the actor package calls a sleeping primitive (time.Sleep, pause.For, time.After, timer creation, the handoff sleep) and SendAsync goes through deliverBypassingHandoff, which fails fast with ErrRelocationInProgress; (2) the synchronous path (SendSync → deliverAcrossHandoff) sleeps only in sleepWithinHandoff; that function returns false without sleeping when the deadline has passed, never sleeps longer than the time left to the deadline, and also wakes on context cancellation; every deadline handed to it is derived from min(handoff window, caller maxWait) or from the not-found masking window capped by the caller's deadline; (3) the final delivery runs under a context bounded by the caller's deadline when one was given; (4) when waiting is no longer allowed the function returns the retryable error (ErrRelocationInProgress or the retryable lookup error), not a success and not a bare timeout. Added after the probe round: the full handoff window is assigned as the attempt's deadline only over the edge on which the target is pinned to a relocating endpoint (a failed resolution gets the short not-found window).",
 		assumptions: []string{"wall-clock latency of a single lookup/delivery attempt (each attempt is bounded by the context, not by this analysis)", "time.Until/time.Timer semantics"},
 		minObl:     14,
 		run:        runC35,
@@ -320,6 +320,16 @@ func runC35(c *Ctx) {
 			}
 			return true
 		})
+		// which deadline for which case: the full handoff window is granted only to a target that is still pinned to a
+		// relocating endpoint (high confidence); a failed resolution gets the short not-found window
+		fullWindow := func(n ast.Node) bool {
+			as, ok := n.(*ast.AssignStmt)
+			return ok && len(as.Lhs) == 1 && len(as.Rhs) == 1 && as.Tok == token.ASSIGN && is(objOf(info, as.Lhs[0]), "attemptDeadline") && is(objOf(info, as.Rhs[0]), "deadline")
+		}
+		pinned := f.BoolEdges(func(e ast.Expr) bool { return isCallNamed(info, e, "isEndpointRelocating") }, true)
+		if len(f.Find(fullWindow)) > 0 {
+			c.guardedBy(f, pinned, fullWindow, "full-window-only-if-endpoint-relocating", "the full handoff window masks only a target still pinned to a relocating endpoint; a failed resolution is masked for the short not-found window", c.P.Pos(da.Decl.Pos()))
+		}
 		c.Check(okArg && okAssign, "sleep-deadline-is-clamped", "every deadline handed to the sleep is the clamped window deadline or the capped not-found deadline", c.P.Pos(da.Decl.Pos()), "")
 		// final deliver under WithDeadline(callerDeadline) when one is set
 		// the branch 'if callerDeadline.IsZero()' that immediately guards the delivery (a plain, non-compound condition)
